@@ -39,6 +39,11 @@ CLAIMED["C03"] = dict(technique=_R2_T + "; decrypt result propagation", note=_R2
     text="Per authenticated field of each online-phase message the consuming party has a fail-closed abort check (exists, right ingredients, dominates the use, every element and sender, absent => Err), masked inputs use the verified broadcast with conflict rejection, and AEAD failure of garble::decrypt is returned as Err.")
 CLAIMED["C04"] = dict(technique=_R2_T + "; must-precede across awaits by Ready-edge dominance; enumeration of shared-generator draws/clones", note=_R2_N + " Known findings (7) recorded in known_findings.json.", ref="DESIGN.md §3 R2/R3/R4, §4 C04",
     text="Preprocessing: every verification step named by the property has a fail-closed check reached by the corresponding receive (coin toss, aBit, aShare, LaAND, buckets, Beaver, KOS, Ristretto, echo broadcast), every received commitment component is opened, commit rounds complete (await Ready edge) before the reveal exchange is created and the revealed local is the committed one, and every draw from / clone of a shared challenge generator is enumerated. Genuine protocol-level defects of the pinned tree are recorded as known findings.")
+CLAIMED["C08"] = dict(
+    technique="type-resolved enumeration of panic-capable sinks on message components (index/slice/unwrap/alloc) with validated-nesting-level and dominating length-guard analysis; Result-drop analysis; await/guard analysis (rustc MIR)",
+    text="For every receive reachable from mpc and every malformed message at once: no index/slice/copy_from_slice on a vector of a received message below the nesting level validated on receipt unless behind a fail-closed length test on exactly that vector (or a whole-collection test); no unwrap/expect on message-derived values (AEAD plaintext, decrypt Result, popped elements) except fixed-size conversion of length-validated vectors; no received integer reaches an index, bound, divisor or allocation size; index sinks on own data under a peer-chosen optional slot are enumerated against a reviewed table; no Result of channel/protocol error types is discarded; every await polls engine futures only and no std MutexGuard lives across a yield.",
+    note="Trusted: rustc MIR; bincode/serde capped pre-allocation; a user-supplied Channel errors when the peer is gone (SimpleChannel test double excluded). Time bounds and the dealer path (unreachable from mpc) are not decided.",
+    ref="DESIGN.md §3 R1/R-ERR, §4 C08")
 NA = {}
 
 def main():
